@@ -562,7 +562,7 @@ impl Swift {
         match e {
             RustEnum::Unit(shared) => {
                 for v in &shared.variants {
-                    let variant_name = v.shared().id.original.to_camel_case();
+                    let variant_name = swift_case_name(&v.shared().id.original);
 
                     self.write_comments(w, 1, &v.shared().comments)?;
                     if v.shared().id.renamed == variant_name {
@@ -588,22 +588,7 @@ impl Swift {
                 for v in &shared.variants {
                     self.write_comments(w, 1, &v.shared().comments)?;
 
-                    let variant_name = {
-                        let mut variant_name = v.shared().id.original.to_camel_case();
-
-                        if variant_name
-                            .chars()
-                            .next()
-                            .map(|c| c.is_ascii_digit())
-                            .unwrap_or(false)
-                        {
-                            // If the name starts with a digit just add an underscore
-                            // to the front and make it valid
-                            variant_name = format!("_{}", variant_name);
-                        }
-
-                        variant_name
-                    };
+                    let variant_name = swift_case_name(&v.shared().id.original);
 
                     coding_keys.push(if variant_name == v.shared().id.renamed {
                         swift_keyword_aware_rename(&variant_name).into_owned()
@@ -854,6 +839,24 @@ impl Swift {
             )
             .map(|(type_name, mut constraints)| format!("{type_name}: {}", constraints.join(" & ")))
             .join(", ")
+    }
+}
+
+/// The Swift `case` identifier of an enum variant: camelCase, and since that drops leading
+/// underscores (`_1A` becomes `1a`), a name that ends up starting with a digit gets an
+/// underscore in front to stay a valid identifier.
+fn swift_case_name(original: &str) -> String {
+    let variant_name = original.to_string().to_camel_case();
+
+    if variant_name
+        .chars()
+        .next()
+        .map(|c| c.is_ascii_digit())
+        .unwrap_or(false)
+    {
+        format!("_{}", variant_name)
+    } else {
+        variant_name
     }
 }
 
